@@ -1,8 +1,8 @@
 """C13 - what-if simulations are transactional.
 
 Statement-level check (module Stmt): see st_stmt.py. Verdicts come only from TLC evaluating
-C13_RollbackObs / C13_DiscardObs / C13_CommitNetObs (spec/StmtTrace.tla) on projections recorded from
-a real framework.Statement running on a real framework.Session.
+C13_RollbackObs / C13_DiscardObs / C13_CommitNetObs / C13_UnevictObs / C13_NoPhantomObs (spec/StmtTrace.tla)
+on projections recorded from a real framework.Statement running on a real framework.Session.
 """
 import json
 import os
